@@ -118,8 +118,8 @@ func c04syntheticModule() map[string]ugo.Object {
 		"fn":  &ugo.Function{Name: "fn", Value: func(a ...ugo.Object) (ugo.Object, error) { return ugo.Int(len(a)), nil }},
 		"bfn": ugo.BuiltinObjects[ugo.BuiltinTypeName],
 		// functions nested in container attributes
-		"ops":    ugo.Map{"double": &ugo.Function{Name: "double", Value: func(a ...ugo.Object) (ugo.Object, error) { return ugo.Int(2 * len(a)), nil }}, "k": ugo.Int(5)},
-		"hooks":  ugo.Array{&ugo.Function{Name: "h0", Value: func(a ...ugo.Object) (ugo.Object, error) { return ugo.String("h0"), nil }}, ugo.Int(1), ugo.Map{"deep": &ugo.Function{Name: "deep", Value: func(a ...ugo.Object) (ugo.Object, error) { return ugo.String("deep"), nil }}}},
+		"ops":   ugo.Map{"double": &ugo.Function{Name: "double", Value: func(a ...ugo.Object) (ugo.Object, error) { return ugo.Int(2 * len(a)), nil }}, "k": ugo.Int(5)},
+		"hooks": ugo.Array{&ugo.Function{Name: "h0", Value: func(a ...ugo.Object) (ugo.Object, error) { return ugo.String("h0"), nil }}, ugo.Int(1), ugo.Map{"deep": &ugo.Function{Name: "deep", Value: func(a ...ugo.Object) (ugo.Object, error) { return ugo.String("deep"), nil }}}},
 		// several values of one kind that the encoder serializes through its generic fallback, in one container
 		"err2":   &ugo.Error{Name: "ModErr2", Message: "m2", Cause: &ugo.Error{Name: "Cause", Message: "c"}},
 		"errs":   ugo.Map{"e1": &ugo.Error{Name: "E1", Message: "one"}, "e2": &ugo.Error{Name: "E2", Message: "two"}, "e3": &ugo.Error{Name: "E3", Message: "three"}},
